@@ -234,6 +234,10 @@ def check(prop, tier):
     if prop == "C13":
         import golden
         extra_cov, extra_viol = golden.run(wd)
+    if prop in ("C10", "C17"):
+        # a REJECTED refresh of a forged key must leave both keys (and the registered identifiers) untouched
+        import satellites
+        extra_viol, extra_cov = satellites.c08_viols(tier, wd, prop, only={"modified-on-reject", "issued-refused"})
     if prop == "C09":
         # "a forged user key" is one of the documented error causes: the tamper kinds of UskMac.tla
         import satellites
